@@ -382,7 +382,12 @@ class Interp:
         """A class factory: a module-level function whose body defines one class and returns it (Struct, Array, StructTag, ...)."""
         body = fi.node.body
         cds = [s_ for s_ in body if isinstance(s_, ast.ClassDef)]
-        if len(cds) != 1 or not body or not (isinstance(body[-1], ast.Return) and isinstance(body[-1].value, ast.Name) and body[-1].value.id == cds[0].name):
+        if len(cds) != 1 or not body or not isinstance(body[-1], ast.Return):
+            return None
+        rv = body[-1].value
+        returns_class = isinstance(rv, ast.Name) and rv.id == cds[0].name
+        returns_instance = isinstance(rv, ast.Call) and isinstance(rv.func, ast.Name) and rv.func.id == cds[0].name  # e.g. n_bytes: `return BYTES(name)`
+        if not (returns_class or returns_instance):
             return None
         ci = self.ctx.model.classes.get(f"{fi.module.name}:{fi.qualname}.{cds[0].name}")
         return (cds[0], ci) if ci is not None else None
@@ -426,7 +431,53 @@ class Interp:
                 continue
             other._stmt(st, env2, depth + 1)
         attrs = {name: other.ev(expr, env2, depth + 1) for name, expr in ci.attrs.items()}
+        # what the class inherits from bases that are themselves made by a factory (StructTag derives from the Struct of its members)
+        for b in cd.bases:
+            try:
+                bv = other.ev(b, env2, depth + 1)
+            except _Unknown:
+                continue
+            if isinstance(bv, Obj) and bv.__dict__.get("_is_class"):
+                for k_, v_ in bv.__dict__.items():
+                    if k_ not in ("_ci", "_is_class"):
+                        attrs.setdefault(k_, v_)
+        rv = fi.node.body[-1].value
+        if isinstance(rv, ast.Call):
+            # the factory returns an instance of the class: class attributes stay reachable through the instance
+            inst = Obj(_ci=ci, **attrs)
+            inst.__dict__["_class_witness"] = Obj(_ci=ci, _is_class=True, **attrs)
+            a2, k2 = other._call_args(rv, env2, depth + 1)
+            dc, m = ci.lookup("__init__")
+            if isinstance(m, ast.FunctionDef):
+                other._invoke(dc, m, inst, a2, k2, depth + 1)
+            return inst
         return Obj(_ci=ci, _is_class=True, **attrs)
+
+    def _class_attr_dynamic(self, ci, attr, depth=0):
+        """A class attribute that a base made by a class factory provides (`class Revision(Struct(USINT("major"), ...))`: the
+        members live in the factory's scope).  UNKNOWN when no such base provides it."""
+        cache = self.ctx.__dict__.setdefault("_dyn_class_bases", {})
+        for k in ci.mro():
+            for b in getattr(k.node, "bases", []):
+                if not isinstance(b, ast.Call):
+                    continue
+                if id(b) not in cache:
+                    try:
+                        cache[id(b)] = Interp(self.ctx, k.module, None, self.max_depth).ev(b, {}, 0)
+                    except (_Unknown, _Raise, ArithmeticError, TypeError, ValueError, KeyError, IndexError, AttributeError):
+                        cache[id(b)] = None
+                w = cache[id(b)]
+                if isinstance(w, Obj) and attr in w.__dict__ and attr not in ("_ci", "_is_class"):
+                    return w.__dict__[attr]
+        return UNKNOWN
+
+    def _as_obj(self, inst, depth=0):
+        """The witness instance a construction record `C(args)` stands for (its constructor chain folded on the recorded arguments)."""
+        o = inst.__dict__.get("_obj")
+        if o is None:
+            o = self.construct(inst.ci, list(inst.args), dict(inst.kwargs), depth)
+            inst.__dict__["_obj"] = o
+        return o
 
     def _obj_attr(self, o, attr, depth):
         if attr in o.__dict__:
@@ -440,6 +491,9 @@ class Interp:
                 return BoundMethod(o, dc, m)
             if m is not None:
                 v = self.ctx.folder.eval(m, dc.module)
+                if v is not UNKNOWN:
+                    return v
+                v = self._class_attr_dynamic(ci, attr, depth)
                 if v is not UNKNOWN:
                     return v
                 raise _Unknown(f"class attribute {ci.name}.{attr} not foldable")
@@ -457,7 +511,7 @@ class Interp:
             pass
         elif "classmethod" in decos:
             # a witness that stands for the class itself (a generated class with witness attributes) stays the receiver
-            env2[params[0]] = me if me.__dict__.get("_is_class") else ClassRef(me.__dict__["_ci"])
+            env2[params[0]] = me if me.__dict__.get("_is_class") else me.__dict__.get("_class_witness") or ClassRef(me.__dict__["_ci"])
             params = params[1:]
         elif decos - {"property"}:
             raise _Unknown(f"decorated method {m.name}")
@@ -547,19 +601,31 @@ class Interp:
                     env2["__super"] = _SuperRef(self.cls, k)
                     return self._classmethod_call(e2, env2, depth)
             return UNKNOWN
-        if isinstance(v, ast.Call) and isinstance(v.func, ast.Name) and v.func.id == "super" and not v.args:
+        if isinstance(v, ast.Call) and isinstance(v.func, ast.Name) and v.func.id == "super" and (not v.args or (len(v.args) == 2 and self.me is not None)):
             if self.me is None or self.cls is None:
                 return UNKNOWN
             mro = self.me.__dict__["_ci"].mro()
-            if self.cls not in mro:
+            start = self.cls
+            if v.args:
+                # super(C, cls) / super(C, self): continue after C in the receiver's MRO
+                c0 = self.ctx.folder.eval(v.args[0], self.module)
+                if not isinstance(c0, ClassRef):
+                    return UNKNOWN
+                start = c0.ci
+            if start not in mro:
                 return UNKNOWN
-            for k in mro[mro.index(self.cls) + 1:]:
+            for k in mro[mro.index(start) + 1:]:
                 if f.attr in k.methods:
                     args, kwargs = self._call_args(e, env, depth)
                     return self._invoke(k, k.methods[f.attr], self.me, args, kwargs, depth)
             if f.attr == "__init__":
                 return None  # object.__init__
             return UNKNOWN
+        if isinstance(v, ast.Name) and isinstance(env.get(v.id), Instance) and _is_data_type(env[v.id].ci) and self.ctx.folder.elementary_format(env[v.id].ci) is None:
+            # a codec call on a data-type object kept as a construction record (a named member of a structure): fold it on the
+            # witness instance (elementary fixed-format types keep their direct path)
+            env = _ChildEnv(env)
+            dict.__setitem__(env, v.id, self._as_obj(env.parent[v.id], depth))
         if not self._mentions_obj(v, env) or any(isinstance(x, ast.Call) for x in ast.walk(v)):
             return UNKNOWN  # (a receiver that is itself a call is left to the other handlers: it must be evaluated only once)
         try:
@@ -601,6 +667,12 @@ class Interp:
     def _ev(self, e, env, depth=0):
         if isinstance(e, ast.Attribute) and isinstance(e.value, ast.Name) and isinstance(env.get(e.value.id), Obj):
             return self._obj_attr(env[e.value.id], e.attr, depth)
+        if isinstance(e, ast.Attribute) and isinstance(e.value, ast.Name) and isinstance(env.get(e.value.id), Instance) and e.attr not in ("decode", "encode"):
+            # an attribute of an object kept as a construction record (`typ.name` of `UINT("vendor")`): its constructor is folded
+            v0 = self.ctx.folder.eval(e, self.module, env=env)
+            if v0 is not UNKNOWN:
+                return v0
+            return self._obj_attr(self._as_obj(env[e.value.id], depth), e.attr, depth)
         if isinstance(e, ast.Attribute) and not isinstance(e.value, ast.Name) and self._mentions_obj(e.value, env):
             base = self.ev(e.value, env, depth)
             if isinstance(base, Obj):
@@ -619,6 +691,16 @@ class Interp:
             v = self.ctx.folder.eval(e, self.module, env=env)
         if v is not UNKNOWN and not _has_unknown(v):
             return v
+        if isinstance(e, ast.Attribute) and isinstance(e.ctx, ast.Load) and not any(isinstance(x, ast.Call) for x in ast.walk(e.value)):
+            # an attribute of a class that one of its bases - made by a class factory - provides
+            try:
+                base_ = self.ev(e.value, env, depth)
+            except _Unknown:
+                base_ = UNKNOWN
+            if isinstance(base_, ClassRef):
+                dv = self._class_attr_dynamic(base_.ci, e.attr, depth)
+                if dv is not UNKNOWN:
+                    return dv
         if isinstance(e, ast.Compare) and len(e.ops) > 1:
             left = e.left
             for op_, right in zip(e.ops, e.comparators):
@@ -765,6 +847,8 @@ class Interp:
                 return getattr(env[e.func.value.id], e.func.attr)(*args)
             if e.func.attr in ("decode", "encode") and len(e.args) == 1 and not e.keywords:
                 recv = self.ctx.folder.eval(e.func.value, self.module, env={k: v for k, v in env.items() if not isinstance(v, (Stream, Obj, Bound))})
+                if isinstance(recv, Instance) and self.ctx.folder.elementary_format(recv.ci):
+                    recv = ClassRef(recv.ci)  # a named instance of an elementary type (a structure member) codes like its class
                 if isinstance(recv, ClassRef):
                     arg = self.ev(e.args[0], env, depth)
                     r_ = codec_apply(self.ctx, recv.ci, e.func.attr, [arg])
